@@ -43,6 +43,11 @@ func CanBeNested(tagName string) bool {
 	case "ul", "ol", "li", "blockquote", "pre":
 		return true
 
+	case "menu", "dir":
+		// The other list containers of HTML. Without them the items of a list
+		// that is nested in a list item become items of the outer list.
+		return true
+
 	default:
 		return false
 	}
